@@ -6,9 +6,8 @@
 //! value equality (objects irrespective of member order).
 use jsonpath_rust::query::queryable::Queryable;
 
-#[derive(Clone, Debug, Default)]
+#[derive(Clone, Debug)]
 pub enum J {
-    #[default]
     Null,
     Bool(bool),
     Int(i64),
@@ -16,6 +15,14 @@ pub enum J {
     Str(String),
     Arr(Vec<J>),
     Obj(Vec<(String, J)>),
+}
+
+/// `Default` is deliberately NOT the null value: the trait asks for `Default` and for `null()` separately,
+/// and an engine that confuses the two must be noticed.
+impl Default for J {
+    fn default() -> Self {
+        J::Obj(vec![])
+    }
 }
 
 impl PartialEq for J {
